@@ -19,10 +19,14 @@ RULE = ('polygons of the C04 space (any plane, either winding, any start, offset
         'the merged outline, a closed loop that lost a corner through remove, empty / 2-vertex loops), sanitize (outer, merged open / closed, loops with a '
         'collinear run or a retraced spike obtained through remove, closed and open, opened loop), contains_segment of loops and of the polygon + '
         'Polygon3D::inner in and out of range, perimeter / area (closed: value, open: Err), is_coplanar (in plane, around 1e-7, off plane, no vertices, '
-        'no normal), remove and [i] in and out of range')
+        'no normal), remove and [i] in and out of range. Thorough tier: also 1500 merge cases (+ their ops groups) of the f32 build (correspondence only, no oracle)')
 ASSUMPTIONS = [
     'Coq 8.16.1 kernel + vm_compute; the sequence characterisation holds for every number instance of the model, the Newell/edge-sum identity over the reals',
     'model = code: polygon3d.rs get_closed_loop (nearest-pair scan, hole walk index arithmetic, rebuild by push) checked bit-for-bit, then Loop3D::close',
+    'f32 build (thorough tier): the same runner text instantiated on the binary32 instance (module C12f32 of Run/C12.v on NumF32fast, proved equal to the '
+    'Flocq-rounded NumF32 in Run/FastNum32Proof.v) against the harness built with --features float, bit for bit; the f32 generator draws 75% coordinate planes, offsets to 8 '
+    '(finding F15: the absolute 1e-7 coplanarity tolerance refuses oblique f32 outlines; refusals / Err / panic outcomes are reproduced by the model); CORRESPONDENCE ONLY: the '
+    'exact-rational oracle does not judge f32 cases',
     'area / winding consequences of the characterised sequence for the float build are checked on the implementation outputs by the exact oracle (1e-9), not proved',
 ]
 THEOREMS = ['C12_no_holes_unchanged', 'C12_hole_index_start_and_return', 'C12_hole_index_steps', 'C12_hole_index_visits_every_vertex',
@@ -38,7 +42,12 @@ THEOREMS = ['C12_no_holes_unchanged', 'C12_hole_index_start_and_return', 'C12_ho
 def streams(tier):
     if tier == 'quick': return [Stream('C12', 700)]
     if tier == 'search': return [Stream('C12', 2500)]
-    return [Stream('C12', 5000), Stream('C12', 1500, release=True)]
+    # f32 build (thorough tier): correspondence only, the oracle does not judge f32 cases
+    return [Stream('C12', 5000), Stream('C12', 1500, release=True), Stream('C12', 1500, f32=True)]
+
+def is_f32(c, st=None):
+    """cases of the f32 build carry "f32": true (harness/src/polys.rs); the stream flag says the same"""
+    return bool(c.get('f32') or (st is not None and getattr(st, 'f32', False)))
 
 def sqd(a, b): return (a[0] - b[0]) ** 2 + (a[1] - b[1]) ** 2 + (a[2] - b[2]) ** 2
 def sqd_x(a, b): return sum((Fr(a[i]) - Fr(b[i])) ** 2 for i in range(3))
@@ -130,8 +139,11 @@ def classify(c, st):
             cls = q['class']
             outs.add('panic' if cls == 99 else 'Err' if cls >= 100 else 'ok')
         key = ('ops', c['group'], tuple(tuple(l['v']) for l in c['loops']), tuple((q['op'], q['subj'], q['idx'], tuple(q['args'])) for q in c['qs']))
-        return key, True, 'ops:%s:%dq:%s' % (c['group'], 5 * ((len(c['qs']) + 4) // 5), '+'.join(sorted(outs)))
+        return key, True, ('f32:' if is_f32(c, st) else '') + 'ops:%s:%dq:%s' % (c['group'], 5 * ((len(c['qs']) + 4) // 5), '+'.join(sorted(outs)))
     key = (tuple(c['outer']['v']), tuple(tuple(h['v']) for h in c['holes']))
+    if is_f32(c, st):
+        # f32 streams: plane kind and the outcome of the merge / close (refusals: finding F15) instead of the f64 quantifier classes
+        return key, len(c['holes']) == 0, 'f32:%s:h%d:merge%s:close%s' % (next((x for x in c['note'].split(':') if x.startswith('plane')), 'corpus'), len(c['holes']), c['mo'], c['co'])
     q = quantifier(c, st)[0]
     return key, len(c['holes']) == 0, 'h%d:%s' % (len(c['holes']), q)
 
@@ -140,13 +152,15 @@ def describe(c, st):
         return dict(note=c['note'], group=c['group'], subjects=['%s(%d%s)' % (lb, len(l['v']) // 3, ',closed' if l['closed'] else ',open') for lb, l in zip(c['labels'], c['loops'])],
                     queries=ops_summary(c))
     return dict(note=c['note'], outer_n=len(c['outer']['v']) // 3, holes=[len(h['v']) // 3 for h in c['holes']],
-                merged_n=(len(c['merged']['v']) // 3 if c['merged'] else None), close=c['co'], quantifier=quantifier(c, st)[0])
+                merged_n=(len(c['merged']['v']) // 3 if c['merged'] else None), close=c['co'], quantifier=(None if is_f32(c, st) else quantifier(c, st)[0]))
 
 def edge_counter(v):
     n = len(v)
     return Counter((v[i], v[(i + 1) % n]) for i in range(n))
 
 def oracle(c, st):
+    # f32 build: correspondence only (the bridge / area re-derivation uses 1e-9 margins set against binary64 rounding)
+    if is_f32(c, st): return None
     if is_ops(c): return None      # no property text speaks about these calls: model correspondence only
     if c['mo'] == 99:
         # get_closed_loop unwraps the push of every merged vertex: it panics when the nearest-vertex bridge is obstructed (the
